@@ -152,7 +152,12 @@ def main(run: Run):
     run.assumptions.append("Wishbone initiator is protocol-abiding: request signals held stable until acknowledged (stated in the property)")
     run.functions["amaranth_soc.csr.wishbone.WishboneCSRBridge.elaborate"] = "per-geometry (bounded: width pairs x address widths), all transfers/all time by induction over transfers"
     run.functions["amaranth_soc.csr.wishbone.WishboneCSRBridge.__init__"] = "exercised (geometry refusals counted)"
-    run_configs(run, __name__, cfgs)
+    # every generated geometry is inside the property's quantifier ("every address width"): a refusal is a violation.  The class
+    # "CSR address space smaller than one Wishbone word" is a recorded finding (known_findings.txt); any other refusal is new.
+    run_configs(run, __name__, cfgs, must_accept=lambda cfg: ("csr-space-smaller-than-one-wishbone-word"
+                                                             if (1 << cfg["aw"]) < cfg["wb_dw"] // cfg["csr_dw"] else True))
+    from . import ctor_l1
+    ctor_l1.add_to(run, ['wb_csr_bridge_init'])
     from . import validation
     validation.add_to(run, ['wb_csr_bridge_ctor'])
     return run.finish(
